@@ -87,12 +87,35 @@ pub fn run(args: &[&str]) -> String {
       let Some(b) = unhex(h) else { return "bad-request".into() };
       let Ok(s) = String::from_utf8(b) else { return "bad-request".into() };
       let s2 = s.clone();
+      // the same string through serde (a JSON string) and through FromStr must be treated exactly as by `parse`
+      let js = serde_json::to_string(&s).unwrap_or_default();
+      let via_serde = std::panic::catch_unwind(move || serde_json::from_str::<Timestamp>(&js).ok());
+      let s3 = s.clone();
+      let via_fromstr = std::panic::catch_unwind(move || s3.parse::<Timestamp>().ok());
+      let other_paths = |parsed: Option<&Timestamp>| -> Option<String> {
+        for (name, r) in [("serde", &via_serde), ("FromStr", &via_fromstr)] {
+          match r {
+            Err(_) => return Some(format!("parse-paths-differ:{} panics on {:?}", name, s)),
+            Ok(v) => {
+              let same = match (v.as_ref(), parsed) {
+                (None, None) => true,
+                (Some(a), Some(b)) => a == b && a.to_unix() == b.to_unix() && a.to_rfc3339() == b.to_rfc3339() && a.cmp(b) == std::cmp::Ordering::Equal,
+                _ => false,
+              };
+              if !same {
+                return Some(format!("parse-paths-differ:{} gives {:?} for {:?}, parse gives {:?}", name, v.as_ref().map(|t| t.to_rfc3339()), s, parsed.map(|t| t.to_rfc3339())));
+              }
+            }
+          }
+        }
+        None
+      };
       match std::panic::catch_unwind(move || Timestamp::parse(&s2)) {
         Err(_) => "panic\t#FAIL:parse-panics:Timestamp::parse panicked".into(),
-        Ok(Err(_)) => "err".into(),
+        Ok(Err(_)) => with("err".into(), other_paths(None)),
         Ok(Ok(t)) => {
           let (f, _) = fmt_obs(&t);
-          with(format!("ok:{}:{}", t.to_unix(), f), oracle(&t))
+          with(format!("ok:{}:{}", t.to_unix(), f), oracle(&t).or_else(|| other_paths(Some(&t))))
         }
       }
     }
